@@ -138,18 +138,24 @@ class C26(Prop):
         "every run: real MortarGrids of small 2-D md-grids with one fracture, all eight projection "
         "matrices compared (1e-9) after construction and after each replacement; the property "
         "itself (per-side row/column sums, transposes) is evaluated exactly on the real matrices, "
-        "also after update_primary.")
+        "also after update_primary.  2-D mortar grids (fracture planes in 3-D, tilted/rotated planes, "
+        "one real gmsh 3-D md-grid per run): same bookkeeping model with the shapely overlap areas as "
+        "data of each operation (C26_block_weights_2d gives unit sums from C33's area contract, which "
+        "Coq checks on the captured data); histories of mortar/secondary replacements by "
+        "non-matching triangle grids are compared matrix by matrix and evaluated by the oracle.")
     level_note = (
         "NOT proved in Coq (covered only by the execution correspondence and the oracle on the "
         "generated histories): that the block-diagonal / stacked arrangement (sps.bmat) of the proved "
         "blocks satisfies the hypotheses of the two _partial preservation theorems (index "
         "bookkeeping), the sums right after _init_projections (stable sort and even/odd split of the "
-        "face-cell pairs), update_primary / match_grids_along_1d_mortar, 2-D mortar grids (match_2d, "
-        "shapely), sign_of_mortar_sides.  Trusted: Coq kernel + vm_compute, the harness, the inputs "
+        "face-cell pairs), update_primary / match_grids_along_1d_mortar, the geometric part of match_2d "
+        "(projection to the plane, shapely: its overlap areas are inputs of the model, validated "
+        "against the area contract), sign_of_mortar_sides.  Trusted: Coq kernel + vm_compute, the harness, the inputs "
         "read off the real objects (captured primary_secondary matrix, node coordinates).  Theorems "
         "are over Q; floating-point rounding is not covered.  Defect found and repaired (fix commit "
         "32834ce81): update_primary after a non-matching update_mortar counted interface faces "
-        "repeatedly.")
+        "repeatedly.  The 2-D mortar cases also exposed a regression of the C33 repair of "
+        "triangulations (GeometryCollection results dropped), repaired in 87f7f5389.")
     technique = ("Coq proof (invariant of the projection bookkeeping preserved by every update, using "
                  "C33's overlap theorem) + vm_compute execution correspondence on real MortarGrids")
     rule = ("2-D Cartesian md-grids (nx,ny in 2..5, occasionally simplex from pp.mdg_library) with one "
@@ -167,8 +173,12 @@ class C26(Prop):
     trusted = ["the harness reads the inputs of the modelled functions off the real objects "
                "(primary_secondary matrix and face_duplicate_ind captured at MortarGrid construction, "
                "node coordinates of the side grids)",
-               "update_primary / match_grids_along_1d_mortar and 2-D mortar grids are not modelled "
-               "(oracle on the real matrices only)"]
+               "update_primary / match_grids_along_1d_mortar is not modelled (oracle on the real "
+               "matrices only)",
+               "2-D mortar grids: the overlap areas of every match_2d call (shapely, via "
+               "intersections.triangulations) are captured and handed to the model as data; Coq checks "
+               "the C33 area contract on them (sums = cell volumes to 1e-9) and recomputes weights, "
+               "block arrangement and products"]
     assumptions = ["1-D mortar grids on an axis-aligned line; every new grid tessellates the same "
                    "segment as the grid it replaces and has no zero-length cell"]
 
